@@ -14,7 +14,7 @@ META = {
             "vm_never_panics_text (the same from the text: whatever the front-end model accepts, shorter than 2^64 characters), vm_never_panics_partial (the earlier "
             "statement on a fragment, kept). Ties: the compiler+VM models equal the real ones on every generated case "
             "(bytecode equality, outcome incl. panic/no panic), Spec vs compiler+VM with a recovered Go panic as an outcome, every compiled program run twice "
-            "under a watchdog, the whole case list executed again in the opposite order in a second process (an outcome that depends on the cases executed "
+            "under a watchdog and a third time on a second variable map against a fresh compilation of the text (what a run leaves in the compiled program), the whole case list executed again in the opposite order in a second process (an outcome that depends on the cases executed "
             "before it = state left behind; replay = the earlier case + the case), a byte-level stream into the real parser (errors rendered).",
     "note": "vm_never_panics has the side conditions of C08.compile_correct (at least one statement — Execute indexes Instructions[0] —, lists shorter than "
             "2^64, no zero-denominator portion literal), none a restriction of the language. PARTIAL: the theorems are about the MODELS of compiler and VM "
@@ -73,6 +73,11 @@ def run(ctx):
         if "unstable" in out:
             rp.violation({"property": "C12", "class": "leaves-state-behind"}, "second execution of the same compiled program differs",
                          inp, out, lambda o: "unstable" in o)
+        if "remembers" in out:
+            rp.violation({"property": "C12", "class": "leaves-state-behind", "where": "compiled-program"},
+                         "an execution left something in the compiled program: its run no. %s (%s) differs from a fresh compilation of the same text "
+                         "on the same values" % (out["remembers"].get("run"), out["remembers"].get("on")), inp, out, lambda o: "remembers" in o)
+    ctx.cov["second_variable_map"] = rebind_stats(inputs, impl)
     # all cases again in the opposite order, in another process: no outcome may depend on what ran before it
     ctx.cov["order_dependent_outcomes"] = order_dependence(ctx, inputs, impl, rp, "C12", "leaves-state-behind")
     ctx.cov["replay_isolation"] = dict(rp.stats)
